@@ -375,6 +375,10 @@ impl World {
     }
 
     pub fn remove_block(&mut self, ids: &[u64]) -> StepResult {
+        self.remove_block_with(ids, false)
+    }
+
+    pub fn remove_block_with(&mut self, ids: &[u64], streamed: bool) -> StepResult {
         let block = self.blocks.last().expect("malformed case: remove on empty chain").clone();
         let have: Vec<u64> = block.txdata[1..].iter().map(|t| *self.ids.get(&t.compute_txid()).unwrap()).collect();
         assert_eq!(have, ids, "malformed case: remove of a block that is not the tip");
@@ -382,7 +386,15 @@ impl World {
         let prev = tracker.headers()[0].clone();
         let h = tracker.height();
         let proof = TxoProof::prove_unchecked(&block, &prev.1, h);
-        let r = catch_unwind(AssertUnwindSafe(|| tracker.remove_block(proof, prev)));
+        let r = catch_unwind(AssertUnwindSafe(|| {
+            if streamed {
+                let ext = TxoProof { attestations: proof.attestations.clone(), proof: ProofType::ExternalBlock() };
+                tracker.block_chunk(block.block_hash(), 0, &serialize(&block)).unwrap();
+                tracker.remove_block(ext, prev)
+            } else {
+                tracker.remove_block(proof, prev)
+            }
+        }));
         match r {
             Err(e) => StepResult::Panic(panic_msg(e)),
             Ok(Err(e)) => StepResult::Err(format!("{:?}", e)),
